@@ -23,6 +23,12 @@ def main(tier):
                 jobs.append(dict(par=dict(stack=st, seed=seed() + 91 + si, level=levels[si % len(levels)], entropy=ent),
                                  sid=sid, flush_all=True, **s))
                 sid += 1
+    # long histories: 45-70 calls on up to 12 files, a flush after every one of them
+    for li, s in enumerate(long_scenarios(2 + seed() % 5)[:3 if tier == "quick" else 12]):
+        for st in ("raw", "enc", "comp", "comp+enc"):
+            jobs.append(dict(par=dict(stack=st, seed=seed() + 191 + li, level=levels[li % len(levels)], entropy="low" if li % 2 else "high"),
+                             sid=sid, flush_all=True, **s))
+            sid += 1
     traces = run_repair_sweeps(jobs, "s20", "c14")
     validate_repair_traces(v, "C14", traces, ev, CLAUSES)
     cov = dict(states=res.distinct + ev.get("trace_states", 0), transitions=res.generated,
